@@ -29,3 +29,26 @@ impl<T> Sender<T> {
     pub fn send(&self, t: T) -> (r: Result<(), SendError>) { unimplemented!() }
 }
 pub enum StatusMessage { Scanning(String, u8), UpdateWarning(String), ScanningComplete(String) }
+
+// ---- the node's output set during one scan (A-node: the node's answers are consistent with one chain view during a call)
+pub type ChainOutT = (Commitment, RangeProof, bool, u64, u64);   // commit, proof, is_coinbase, height, mmr_index
+// the unspent outputs whose MMR insertion index lies in [a, b], in index order
+pub uninterp spec fn spec_chain_range(a: u64, b: u64) -> Seq<ChainOutT>;
+#[verifier::external_body]
+pub proof fn axiom_chain_range_concat(a: u64, b: u64, c: u64)
+    requires a <= b + 1, b <= c, b < u64::MAX
+    ensures spec_chain_range(a, b) + spec_chain_range((b + 1) as u64, c) == spec_chain_range(a, c)
+{ }
+#[verifier::external_body]
+pub proof fn axiom_chain_range_empty(a: u64, b: u64)
+    requires b + 1 == a
+    ensures spec_chain_range(a, b) == Seq::<ChainOutT>::empty()
+{ }
+pub trait ScanNodeClient: Sized {
+    // (last available index (capped by end), last index retrieved, the outputs with index in [start, last retrieved])
+    fn get_outputs_by_pmmr_index(&self, start_index: u64, end_index: Option<u64>, max_outputs: u64) -> (r: Result<(u64, u64, Vec<ChainOutT>), Error>)
+        ensures r matches Ok((highest, last, outs)) ==> outs@ == spec_chain_range(start_index, last) && start_index <= last + 1 && last < u64::MAX;
+}
+// L21: the f64 progress percentage (only shown in status messages)
+#[verifier::external_body]
+pub fn vf_progress_percent(highest_index: u64, last_retrieved_index: u64, start_index_stat: u64) -> (r: u8) ensures r <= 99 { unimplemented!() }
